@@ -105,8 +105,9 @@ def replay(ctx, rep):
             ctx.violation('engine-dup: ' + what, r, sig)
     elif stream == 'dedup':
         from harness import dup_stream
-        if r.get('witness') == 'P':
-            print('replay witness P -> reproduced=%s' % dup_stream.replay_witness_p(ctx))
+        if r.get('witness') in dup_stream.WITNESSES:
+            print('replay witness %s -> dispatches again=%s' % (r['witness'],
+                                                                dup_stream.replay_witness(ctx, r['witness'])))
         elif 'ids' in r:
             dup_stream.run_start_ids_fixed(ctx, r['ids'])
     else:
